@@ -47,8 +47,6 @@ Lemma cb_a64_shape md first rel rg m :
   | _ => True
   end.
 Proof.
-  unfold cb_a64. destruct (mdat md) as [|p sec|]; [reflexivity| |reflexivity].
-  unfold cb_dwarf.
   assert (W : forall f svma,
     match with_fde arule aregs row_step_a64 uncovered_rule_a64 f svma first rg m with
     | CbUncacheable ra rg' => stripped (mask rg) ra /\ lr rg' = ra /\ mask rg' = mask rg
@@ -58,6 +56,13 @@ Proof.
   { intros f svma. unfold with_fde. destruct (row_for_address f svma); [|exact I].
     pose proof (row_step_a64_shape r first rg m) as H.
     destruct (row_step_a64 r first rg m); auto. }
+  unfold cb_a64. destruct (mdat md) as [|p sec| |d]; [reflexivity| |reflexivity|].
+  2:{ unfold MachoCb.cb_macho.
+      destruct (Macho.macho_cui _ _ _ _ _ d rel first); try reflexivity.
+      destruct (Macho.m_eh d) as [l|]; [|reflexivity].
+      destruct (MachoCb.eh_find l fde_offset) as [f|]; [|reflexivity].
+      destruct (add64p S_dwarf_svma_add (base_svma md) rel); cbn [fst]; try exact I. apply W. }
+  unfold cb_dwarf.
   destruct p.
   - destruct (add64p S_dwarf_svma_add (base_svma md) rel); cbn; try exact I; try reflexivity.
     destruct (hdr_lookup sec a); cbn; [apply W | reflexivity].
